@@ -426,12 +426,15 @@ impl Doc {
             // the reader takes one <script> child of <scxml> as the global script
             let mut s = String::new();
             for st in &self.script {
-                if let Stmt::Mark(tag, _) = st {
-                    if !s.is_empty() {
-                        s.push_str("; ");
-                    }
-                    s.push_str(&format!("mark('{}')", tag));
+                let part = match st {
+                    Stmt::Mark(tag, _) => format!("mark('{}')", tag),
+                    Stmt::Gate(n) => format!("gate({})", n),
+                    _ => continue,
+                };
+                if !s.is_empty() {
+                    s.push_str("; ");
                 }
+                s.push_str(&part);
             }
             out.push_str(&format!("  <script>{}</script>\n", xml_escape(&s)));
         }
@@ -764,6 +767,15 @@ pub fn generate(rng: &mut Rng, o: &GenOpts, name: &str) -> Doc {
                         vec![]
                     } else {
                         let mut ev = vec![g.o.events[g.rng.below(g.o.events.len())].clone()];
+                        if g.o.w_raise > 0 && g.rng.chance(g.o.w_raise, 10) {
+                            ev = vec![format!("r{}", 1 + g.rng.below(3))];
+                        } else if g.o.w_self_send > 0 && g.rng.chance(g.o.w_self_send, 10) {
+                            ev = vec![format!("x{}", 1 + g.rng.below(2))];
+                        } else if g.rng.chance(1, 14) {
+                            ev = vec![format!("done.state.{}", all_ids[g.rng.below(all_ids.len())])];
+                        } else if g.o.w_errors > 0 && g.rng.chance(1, 8) {
+                            ev = vec!["error.execution".to_string()];
+                        }
                         if g.rng.chance(1, 6) {
                             ev.push(g.o.events[g.rng.below(g.o.events.len())].clone());
                         }
@@ -857,7 +869,7 @@ fn gen_stmt(g: &mut Gen, in_names: &[String], depth: usize) -> Option<Stmt> {
     let m = g.mark_seq;
     let r = g.rng.below(16);
     Some(match r {
-        0 | 1 if o.w_raise > 0 => Stmt::Raise(format!("r{}", 1 + g.rng.below(3))),
+        0 | 1 if o.w_raise > 0 => Stmt::Raise(format!("r{}.u{}", 1 + g.rng.below(3), m)),
         2 => Stmt::Assign(format!("v{}", g.rng.below(3)), Expr::Add(format!("v{}", g.rng.below(3)), g.rng.range(0, 2))),
         3 => Stmt::Assign(format!("v{}", g.rng.below(3)), Expr::Const(g.rng.range(0, 4))),
         4 | 5 if o.w_if > 0 && depth > 0 => {
@@ -897,8 +909,8 @@ fn gen_stmt(g: &mut Gen, in_names: &[String], depth: usize) -> Option<Stmt> {
             gen_block_tail(&mut body, g, in_names, depth - 1);
             Stmt::Foreach { array, item, index, body }
         }
-        7 if o.w_self_send > 0 => Stmt::SendSelf(format!("x{}", 1 + g.rng.below(2))),
-        8 if o.w_raise > 0 => Stmt::SendInternal(format!("r{}", 1 + g.rng.below(3))),
+        7 if o.w_self_send > 0 => Stmt::SendSelf(format!("x{}.u{}", 1 + g.rng.below(2), m)),
+        8 if o.w_raise > 0 => Stmt::SendInternal(format!("r{}.u{}", 1 + g.rng.below(3), m)),
         9 => Stmt::Log(Expr::Add(format!("v{}", g.rng.below(3)), 1)),
         10 | 11 if o.w_errors > 0 && g.rng.chance(o.w_errors, 8) => match g.rng.below(8) {
             0 => Stmt::AssignUndeclared,
@@ -919,6 +931,12 @@ fn gen_block_tail(b: &mut Block, g: &mut Gen, in_names: &[String], depth: usize)
     let n = g.rng.below(3);
     for _ in 0..n {
         if let Some(s) = gen_stmt(g, in_names, depth) {
+            // announce queue operations so that exactly-once / FIFO can be checked without a model
+            match &s {
+                Stmt::Raise(e) | Stmt::SendInternal(e) => b.push(Stmt::Mark(format!("q:{}", e), vec![])),
+                Stmt::SendSelf(e) => b.push(Stmt::Mark(format!("xq:{}", e), vec![])),
+                _ => {}
+            }
             b.push(s);
             g.mark_seq += 1;
             b.push(Stmt::Mark(format!("a{}", g.mark_seq), vec![]));
